@@ -14,15 +14,31 @@ const PID: &str = "C05";
 
 /// Direction 1: well-typed programs of the documented subset are accepted without diagnostics.
 fn run_accept(ch: &mut Chooser) -> Outcome {
+    run_accept_with(ch, false)
+}
+
+/// Probe: the same with the `<` operator allowed (known finding in the parser dependency).
+fn run_accept_lt_probe(ch: &mut Chooser) -> Outcome {
+    run_accept_with(ch, true)
+}
+
+fn run_accept_with(ch: &mut Chooser, less_than: bool) -> Outcome {
     let nb = 1 + ch.below(12);
     let nh = ch.below(4);
-    let opts = GenOpts::default();
+    let mut opts = GenOpts::default();
+    opts.allow.less_than = less_than;
     let doc = gen_lang_doc(ch, nb, nh, &opts);
     let printed = print_doc(DEFAULT_IMPORTS, &doc.root, Style::default());
     let t = translate(&printed.text, "T", Mode::Generate);
     let detail = |why: &str| json!({"qml": printed.text, "why": why, "diagnostics": t.diag_summary(), "syntax_errors": t.syntax_errors, "panic": t.panic});
     if let Some(p) = &t.panic {
         return Outcome::fail("c05-panic", format!("translator panicked: {p}"), detail(p));
+    }
+    if less_than {
+        let type_args = !t.syntax_errors.is_empty() || t.diags.iter().any(|d| d.message.starts_with("unexpected node kind: type_arguments") || d.message.starts_with("unexpected node kind: instantiation_expression") || d.message.starts_with("unexpected node kind: generic_type"));
+        if type_args && printed.text.contains(" < ") {
+            return Outcome::fail("c05-lt-taken-for-type-arguments", "a well-typed program using the `<` operator is reported as syntax error / unexpected node kind (type arguments)".to_owned(), detail("lt"));
+        }
     }
     if !t.syntax_errors.is_empty() {
         return Outcome::fail("c05-valid-program-syntax-error", format!("well-formed program reported as syntax error: {:?}", t.syntax_errors), detail("syntax"));
@@ -46,8 +62,193 @@ fn run_accept(ch: &mut Chooser) -> Outcome {
         .with_sample(ch.want_sample.then(|| json!({"qml": printed.text})))
 }
 
+/// Direction 2: a well-typed program with exactly one type-breaking edit is rejected.
+fn run_reject(ch: &mut Chooser) -> Outcome {
+    use crate::checks::c03::{ceval, G, K};
+    use crate::doc::Bind;
+    use crate::lang::*;
+    use crate::langedit::*;
+    let constant = ch.chance(1, 4);
+    let handler = ch.chance(1, 3);
+    ch.label(if constant { "ctx:constant" } else { "ctx:dynamic" });
+    ch.label(if handler { "site:handler" } else { "site:binding" });
+    let opts = GenOpts::default();
+    // the document: other bindings stay valid
+    let nbq = if handler { ch.below(2) } else { 1 + ch.below(3) };
+    let nhq = if handler { 1 + ch.below(2) } else { ch.below(2) };
+    let mut doc = gen_lang_doc(ch, nbq, nhq, &opts);
+    if constant {
+        // replace the program of the chosen site by a constant one
+        if handler {
+            let Some(h) = doc.handlers.first_mut() else { return Outcome::skip("no handler generated") };
+            let (k, m, t) = ch.pick(&[(K::Int, "take", T::Int), (K::Str, "takeS", T::Str), (K::Bool, "takeB", T::Bool), (K::Double, "takeD", T::Double)]).clone();
+            let mut g = G { ch, undefined: false };
+            let d = 1 + g.ch.below(3);
+            let e = g.expr(k, d);
+            if ceval(&e).is_err() {
+                return Outcome::skip("constant draw undefined");
+            }
+            let _ = t;
+            let gi = doc.world.objs.iter().position(|o| o.class == "VSig").unwrap();
+            h.program = Program { ty: T::Void, body: Body::Block(vec![S::Expr(E::CallMethod(Box::new(E::Obj(gi)), m, vec![e], T::Void))]), locals: vec![], params: 0 };
+        } else {
+            let Some(b) = doc.bindings.first_mut() else { return Outcome::skip("no binding generated") };
+            let k = match DST_PROPS.iter().find(|(n, _)| *n == b.prop).map(|(_, t)| t) {
+                Some(T::Int) => K::Int,
+                Some(T::Double) => K::Double,
+                Some(T::Str) => K::Str,
+                Some(T::Bool) => K::Bool,
+                _ => return Outcome::skip("target type has no constant expressions"),
+            };
+            let mut g = G { ch, undefined: false };
+            let d = 1 + g.ch.below(3);
+            let e = g.expr(k, d);
+            match ceval(&e) {
+                Ok(crate::checks::c03::CV::Int(v)) if v < i32::MIN as i64 || v > i32::MAX as i64 => return Outcome::skip("constant outside int"),
+                Err(_) => return Outcome::skip("constant draw undefined"),
+                _ => {}
+            }
+            b.program = Program { ty: b.program.ty.clone(), body: Body::Expr(e), locals: vec![], params: 0 };
+        }
+    }
+    // pick the site
+    let objs = doc.world.objs.clone();
+    let (host, bind, mut program, is_handler) = if handler {
+        let Some(h) = doc.handlers.first() else { return Outcome::skip("no handler generated") };
+        (h.host, h.bind, h.program.clone(), true)
+    } else {
+        let Some(b) = doc.bindings.first() else { return Outcome::skip("no binding generated") };
+        (b.host, b.bind, b.program.clone(), false)
+    };
+    let nodes = {
+        let mut n = 0usize;
+        visit(&mut program.clone(), &objs, &mut |_, _, _, _| { n += 1; false });
+        n
+    };
+    // the edit
+    let mech = ch.weighted(&[60, 25, 15]);
+    let mut depth = 0usize;
+    let mut replaced_text: Option<String> = None;
+    let kind: String = match mech {
+        0 => {
+            let k = *ch.pick(EXPR_EDITS);
+            match apply_expr_edit(ch, &mut program, &objs, k, constant) {
+                Some(d) => depth = d,
+                None => return Outcome::skip("edit kind has no qualifying site in this program"),
+            }
+            k.to_owned()
+        }
+        1 => {
+            let (k, text) = statement_fault(ch, is_handler);
+            if constant && text.contains("a0") {
+                return Outcome::skip("statement fault reads a property (not a constant context)");
+            }
+            let mut ss = match program.body.clone() {
+                Body::Expr(e) => vec![S::Expr(e)],
+                Body::Block(ss) => ss,
+            };
+            let pos = ch.below(ss.len().max(1));
+            ss.insert(pos.min(ss.len().saturating_sub(if is_handler { 0 } else { 1 })), S::Raw(text));
+            program.body = Body::Block(ss);
+            k.to_owned()
+        }
+        _ => {
+            if is_handler {
+                // E9: callback parameters / what the handler is attached to
+                let h = doc.handlers.first().unwrap();
+                let n = h.signal_params.len();
+                let body = match &program.body {
+                    Body::Block(_) => print_program(&Program { params: 0, ..program.clone() }, &objs, 2),
+                    Body::Expr(_) => format!("{{ {} }}", print_program(&Program { params: 0, ..program.clone() }, &objs, 2)),
+                };
+                let names = ["p", "q", "r", "s"];
+                let declared: Vec<String> = (0..program.params).map(|i| format!("{}: {}", names[i], h.signal_params[i].qml_name())).collect();
+                let (k, text, name): (&str, String, Option<String>) = match ch.below(7) {
+                    0 => {
+                        // one parameter more than the signal carries
+                        let mut ps: Vec<String> = (0..n).map(|i| format!("{}: {}", names[i], h.signal_params[i].qml_name())).collect();
+                        ps.push(format!("{}: int", names[n]));
+                        ("E9-too-many-parameters", format!("function({}) {}", ps.join(", "), body), None)
+                    }
+                    1 if n >= 1 => {
+                        let bad = match h.signal_params[0] { T::Int => "QString", T::Str => "int", T::Bool => "QString", T::Double => "QString", _ => "int" };
+                        let mut ps: Vec<String> = (0..n).map(|i| format!("{}: {}", names[i], h.signal_params[i].qml_name())).collect();
+                        ps[0] = format!("{}: {bad}", names[0]);
+                        ("E9-incompatible-parameter", format!("function({}) {}", ps.join(", "), body), None)
+                    }
+                    2 if n >= 1 => ("E9-parameter-without-annotation", format!("function({}) {}", names[..n].join(", "), body), None),
+                    3 if n >= 2 => {
+                        let ps: Vec<String> = (0..n).map(|i| format!("p: {}", h.signal_params[i].qml_name())).collect();
+                        ("E9-duplicate-parameter", format!("function({}) {}", ps.join(", "), body), None)
+                    }
+                    4 => ("E9-overloaded-signal", "console.log(\"x\")".to_owned(), Some("onOv".to_owned())),
+                    5 => ("E9-handler-on-slot", "console.log(\"x\")".to_owned(), Some("onDoIt".to_owned())),
+                    _ => ("E9-handler-as-map", "1".to_owned(), Some(format!("on{}.x", cap(h.signal)))),
+                };
+                let _ = declared;
+                if program.params > 0 && name.is_none() && k != "E9-too-many-parameters" && k != "E9-incompatible-parameter" {
+                    // the body may use parameter names that the new list does not declare with the same type
+                    if k == "E9-duplicate-parameter" {
+                        return Outcome::skip("body uses parameters");
+                    }
+                }
+                replaced_text = Some(text);
+                if let Some(nm) = name {
+                    doc.root.children[host].binds[bind].path = nm;
+                }
+                k.to_owned()
+            } else {
+                // E13: mixed-type returns / a path without value
+                let wit = |t: &T| -> &'static str { match t { T::Str => "1", _ => "\"s\"" } };
+                let ss = match program.body.clone() {
+                    Body::Expr(e) => vec![S::Expr(e)],
+                    Body::Block(ss) => ss,
+                };
+                if ch.chance(1, 2) {
+                    let mut ss = ss;
+                    ss.insert(0, S::Raw(format!("if ({}) return {};", if constant { "1 == 1" } else { "a0.b0" }, wit(&program.ty))));
+                    program.body = Body::Block(ss);
+                    "E13-mixed-return-types".to_owned()
+                } else {
+                    if matches!(program.ty, T::Void) {
+                        return Outcome::skip("void program");
+                    }
+                    program.body = Body::Block(vec![S::If(E::Raw(if constant { "1 == 2".into() } else { "a0.b0".into() }, T::Bool), Box::new(S::Block(ss)), None)]);
+                    "E13-path-without-value".to_owned()
+                }
+            }
+        }
+    };
+    let text = replaced_text.unwrap_or_else(|| print_program(&program, &objs, 2));
+    doc.root.children[host].binds[bind] = Bind::new(doc.root.children[host].binds[bind].path.clone(), text);
+    let printed = print_doc(DEFAULT_IMPORTS, &doc.root, Style::default());
+    let t = translate(&printed.text, "T", Mode::Generate);
+    let span = printed.bind_spans[&(vec![host], bind)].clone();
+    let detail = |why: &str| json!({"qml": printed.text, "edit": kind, "edited_binding": &printed.text[span.clone()], "why": why, "diagnostics": t.diag_summary(), "syntax_errors": t.syntax_errors, "panic": t.panic});
+    // histogram key must be 'static: leak the small set of kind names
+    let label: &'static str = Box::leak(format!("edit:{kind}").into_boxed_str());
+    ch.label(label);
+    if let Some(p) = &t.panic {
+        return Outcome::fail("c05-panic", format!("translator panicked: {p}"), detail(p));
+    }
+    if t.accepted() {
+        return Outcome::fail(format!("c05-accepts-{kind}"), format!("program with the edit {kind} is accepted: {}", &printed.text[span.clone()]), detail("accepted"));
+    }
+    // rejected: by a syntax error (unsupported syntax) or by an error diagnostic inside the binding
+    let ok = !t.syntax_errors.is_empty() || t.errors().any(|d| span.start <= d.start && d.end <= span.end);
+    if !ok {
+        return Outcome::fail(format!("c05-no-diagnostic-{kind}"), format!("edit {kind}: rejected without an error inside the edited binding: {:?}", t.diag_summary()), detail("no diagnostic in span"));
+    }
+    let nt = (depth >= 1 || nodes >= 10).then(|| stable_hash(&printed.text));
+    Outcome::pass(nt).with_sample(ch.want_sample.then(|| json!({"edit": kind, "edited_binding": &printed.text[span.clone()], "first_error": t.errors().next().map(|d| d.message.clone())})))
+}
+
 pub fn replay(v: &Value) -> Outcome {
+    let reject = v["part"].as_str() == Some("single-edit");
+    let lt = v["part"].as_str() == Some("less-than-probe");
     match choices_from_json(v) {
+        Some(c) if reject => run_reject(&mut Chooser::new(&c)),
+        Some(c) if lt => run_accept_lt_probe(&mut Chooser::new(&c)),
         Some(c) => run_accept(&mut Chooser::new(&c)),
         None => Outcome::skip("replay file without choices"),
     }
@@ -55,12 +256,25 @@ pub fn replay(v: &Value) -> Outcome {
 
 pub fn run(env: &Env, known: &Known, started: Instant, replayed: u64, replay_violations: Vec<Violation>) -> i32 {
     let cfg = ChoiceRun { env, pid: PID, part: "well-typed", cases: env.tier.pick(12_000, 400_000), max_len: 3000, known };
-    let rr = run_choices(&cfg, run_accept);
+    let mut rr = run_choices(&cfg, run_accept);
+    let cfg = ChoiceRun { env, pid: PID, part: "less-than-probe", cases: env.tier.pick(3_000, 60_000), max_len: 3000, known };
+    let r3 = run_choices(&cfg, run_accept_lt_probe);
+    rr.stats.merge(r3.stats);
+    rr.violations.extend(r3.violations);
+    let cfg = ChoiceRun { env, pid: PID, part: "single-edit", cases: env.tier.pick(30_000, 800_000), max_len: 3000, known };
+    let r2 = run_choices(&cfg, run_reject);
+    // the edit-kind x context x site matrix: an empty cell is a generator bug, not a pass
+    let matrix: std::collections::BTreeMap<String, u64> = r2.stats.labels.iter().filter(|(k, _)| k.starts_with("edit:") || k.starts_with("ctx:") || k.starts_with("site:")).map(|(k, v)| (k.clone(), *v)).collect();
+    rr.stats.merge(r2.stats);
+    rr.violations.extend(r2.violations);
     let ev = Evidence {
         env, pid: PID, level: "exploration",
-        rule: "well-typed programs must be accepted without diagnostics".into(),
-        assumptions: vec![],
-        extra: json!({}),
+        rule: "direction 1: documents with 1-12 binding bodies and 0-3 handler bodies from the type-directed language generator (only constructs of docs/language.md: all operators on all admitted operand types, casts, Math.min/max, qsTr, arg, isEmpty, subscripts, let/const, if/else, switch, return) must be accepted with an empty diagnostic list. Direction 2: the same programs (and constant-only ones) with exactly ONE type-breaking edit from the catalogue of DESIGN appendix B (numeric mixing, string with number, non-bool condition, operator on unsupported type, unsupported operator/statement, assignment to const / read-only / rvalue, assignment/initialiser/argument of another type, wrong argument count, bad callback parameters, handler on overloaded signal / slot / as map, bad declarations, invalid casts, bad subscripts/members, result type not assignable, mixed return types, path without value, no common type), each ill-typed by construction under a rule the statement names, must be rejected with an error inside the edited binding (or a syntax error). Non-trivial: direction 1 = document with >= 3 programs; direction 2 = edit at depth >= 1 or program with >= 10 nodes; distinct by text hash.",
+        assumptions: vec![
+            "the `<` operator is excluded from the generators (known finding in the parser dependency, see C03); integer literals adapt to int/uint as documented by the repository's own tests".into(),
+            "edits are ill-typed by construction (the position demands a type the replacement certainly lacks), not judged by a second type checker".into(),
+        ],
+        extra: json!({"edit_matrix": matrix}),
     };
     finish(&ev, rr.stats, rr.violations, replayed, replay_violations, started)
 }
